@@ -42,7 +42,7 @@ def run_replay(prop, hints, out_path, unit=None):
     fam = P.PROPS[prop].get("replay")
     if fam is None:
         return None
-    script = "invfam.py" if (unit in P.INV_UNITS or fam == "inv") else "callfam.py"
+    script = "bindfam.py" if fam == "bind" else ("invfam.py" if (unit in P.INV_UNITS or fam == "inv") else "callfam.py")
     env = dict(os.environ, PYTHONPATH=REPO)
     cmd = ["/venv/bin/python", os.path.join(HERE, "replay", script), "--search", "--hints", ",".join(hints), "--out", out_path]
     try:
@@ -87,6 +87,12 @@ def main(argv):
             tags = o.meta.get("props")
             if tags and prop not in tags:
                 continue
+            all_obls.append((rep, o, r))
+
+    for th in cfg.get("theorems", []):
+        rep = th()
+        units.append(rep)
+        for o, r in zip(rep.obligations, rep.results):
             all_obls.append((rep, o, r))
 
     # second chance, without competition for the cores, for whatever was not proved
@@ -138,7 +144,7 @@ def main(argv):
         doc = {"property": prop, "failed_obligation": o.name, "obligation_class": gname, "instances": len(items),
                "unit": rep.unit.describe(), "path": o.meta.get("path"), "solver": {k2: v for k2, v in r.items() if k2 != "model"},
                "goal": str(o.goal)[:3000], "replay": rres if rres is not None else {"found": False, "reason": "no replay family for this property"},
-               "how_to_replay": "PYTHONPATH=%s /venv/bin/python %s/replay/%s --scenario <this file>" % (REPO, HERE, "invfam.py" if uname in P.INV_UNITS else "callfam.py")}
+               "how_to_replay": "PYTHONPATH=%s /venv/bin/python %s/replay/%s --scenario <this file>" % (REPO, HERE, "bindfam.py" if cfg.get("replay") == "bind" else ("invfam.py" if uname in P.INV_UNITS else "callfam.py"))}
         if reproduced:
             doc["program"] = rres.get("program")
         h = hashlib.sha256((prop + gname).encode()).hexdigest()[:10]
